@@ -156,8 +156,12 @@ def m_sb_div_q(n, d0l):
         y = a[0]
     else:
         y = n[nn - 2]
-    if not (n1 < (dn0 if flag else 0)): return qs, qh
+    if not (n1 < (dn0 if flag else 0)):
+        if flag and n1 < dn0 + 2: BR["q:no fixup, n1 = dn or dn+1"] += 1
+        return qs, qh
     BR["q:fixup"] += 1
+    if n1 >= dn0 - 2: BR["q:fixup, n1 = dn-2 or dn-1"] += 1
+    _fix_n1 = n1
     # fix-up, sb_div_q.c:203-298
     dp = d0l[dn0 - (qn0 + 1):] if qn0 + 1 < dn0 else d0l
     dn = len(dp); sft = dn0 - dn; x = n1
@@ -170,6 +174,7 @@ def m_sb_div_q(n, d0l):
         if y < cy:
             if x == 0:
                 BR["q:fix tri exit"] += 1
+                if _fix_n1 >= dn0 - 2: BR["q:decrement with n1 >= dn-2"] += 1
                 q2, c = dec(qs); assert c == 0
                 return q2, qh
             BR["q:fix tri x--"] += 1; x -= 1
@@ -183,6 +188,7 @@ def m_sb_div_q(n, d0l):
             mem = mem[:qn] + limbs_of(t % B ** sft, sft)
         if bor and x == 0:
             BR["q:fix qh exit"] += 1
+            if _fix_n1 >= dn0 - 2: BR["q:decrement with n1 >= dn-2"] += 1
             if qn: q2, c = dec(qs); return q2, (qh - c) % B
             return qs, (qh - bor) % B
         if bor: x -= 1; BR["q:fix qh x--"] += 1
@@ -194,6 +200,7 @@ def m_sb_div_q(n, d0l):
             if t < 0:
                 if x == 0:
                     BR["q:fix tail exit"] += 1
+                    if _fix_n1 >= dn0 - 2: BR["q:decrement with n1 >= dn-2"] += 1
                     return dec(qs)[0], qh
                 BR["q:fix tail x--"] += 1; x -= 1
     return qs, qh
@@ -275,6 +282,19 @@ def gen_ops(rng, tier, ctx=None):
                     if 0 <= nv < B ** nn: yield from emit(nv, nn, D)
                 yield from emit(rng.getrandbits(64 * nn), nn, D)
                 yield from emit(_val(rand_limbs(rng, nn, "runs")), nn, D)
+        # the boundary of the test `n1 < dn` (sb_div_q.c:202): the ignored parts are largest (top limb of the remainder up to
+        # dn-2) for divisors with all-ones low limbs, quotient limbs near B-1, qh = 1 and a cut of one or two limbs
+        for top in (1 << 63, (1 << 63) + 1, M):
+            D = [M] * (dn0 - 1) + [top]; Dv = _val(D)
+            for qn in (dn0 - 2, dn0 - 3):
+                if qn < 1: continue
+                nn = dn0 + qn
+                hiq = lambda: _val([rng.randrange(3 << 62, B) for _ in range(qn)])     # every quotient limb >= 3B/4
+                for Q in [2 * B ** qn - 1, 2 * B ** qn - 2, B ** qn - 1, (B ** qn - 1) ^ rng.getrandbits(8)] + \
+                         [B ** qn + rng.getrandbits(64 * qn) for _ in range(4)] + [B ** qn + hiq() for _ in range(4)]:
+                    for r in (-1, -2, 0, 1, -rng.getrandbits(64), rng.getrandbits(64), -rng.getrandbits(64 * (dn0 - 1))):
+                        nv = Q * Dv + r
+                        if 0 <= nv < B ** nn: yield from emit(nv, nn, D)
 
 def extra(ctx, cov):
     cov["c02_sbq_model_branches"] = dict(BR)
